@@ -40,12 +40,13 @@ type lcEvent struct {
 
 // lcWorld is the shared state of one run: the log and everything the script waits on.
 type lcWorld struct {
-	mu     sync.Mutex
-	cond   *sync.Cond
-	events []lcEvent
-	conns  []*memConn // by connection number (order in which Accept handed them out)
-	failed []string   // harness-level problems (timeouts while waiting)
-	sdGID  uint64     // goroutine currently running Shutdown (its Close calls are Shutdown's)
+	mu       sync.Mutex
+	cond     *sync.Cond
+	events   []lcEvent
+	conns    []*memConn // by connection number (order in which Accept handed them out)
+	failed   []string   // harness-level problems (timeouts while waiting)
+	sdGID    uint64     // goroutine currently running Shutdown (its Close calls are Shutdown's)
+	cancelFn func()     // cancels the serve context
 }
 
 // curGID returns the number of the calling goroutine (only used to tell Shutdown's Close calls from
@@ -140,21 +141,22 @@ type memConn struct {
 	id int
 
 	// guarded by w.mu
-	toServer     [][]byte // chunks written by the client, not yet read by the server
-	toClient     []byte   // bytes written by the server, not yet consumed by the client
-	clientClosed bool     // the client has closed its end
-	srvClosed    bool     // the server has called Close
-	closeCalls   int
-	readCalls    int
-	failWrites   bool // the peer has reset: server writes fail
-	readDeadline time.Time
-	addrCalls    int
-	addrHook     func(call int) // called (without w.mu) from RemoteAddr
-	recvReplies  int            // replies to requests the client has read
-	ownCloses    int            // Close calls that did not come from the goroutine running Shutdown
-	rejectMe     bool           // the accept callback refuses this connection
-	cancelMe     bool           // the accept callback cancels the serve context
-	held         bool           // serve is being held inside RemoteAddr
+	toServer       [][]byte // chunks written by the client, not yet read by the server
+	toClient       []byte   // bytes written by the server, not yet consumed by the client
+	clientClosed   bool     // the client has closed its end
+	srvClosed      bool     // the server has called Close
+	closeCalls     int
+	readCalls      int
+	failWrites     bool // the peer has reset: server writes fail
+	readDeadline   time.Time
+	addrCalls      int
+	addrHook       func(call int) // called (without w.mu) from RemoteAddr
+	recvReplies    int            // replies to requests the client has read
+	ownCloses      int            // Close calls that did not come from the goroutine running Shutdown
+	rejectMe       bool           // the accept callback refuses this connection
+	cancelMe       bool           // the accept callback cancels the serve context
+	held           bool           // serve is being held inside RemoteAddr
+	cancelAtAccept bool           // the listener cancels the serve context when handing this connection out
 }
 
 func (c *memConn) Read(p []byte) (int, error) {
@@ -326,6 +328,11 @@ func (l *memListener) Accept() (net.Conn, error) {
 			c.id = len(w.conns)
 			w.conns = append(w.conns, c)
 			w.logLocked(lcEvent{code: evAccept, c: c.id})
+			if c.cancelAtAccept && w.cancelFn != nil {
+				// the serve context is cancelled at the moment the connection is handed out
+				w.cancelFn()
+				w.logLocked(lcEvent{code: evCancel, script: true})
+			}
 			return c, nil
 		}
 		w.cond.Wait()
